@@ -119,14 +119,14 @@ def build(scratch, log_path):
 
 
 CHECK_RE = re.compile(
-    r"^Check (\d+): (\S+)\n\s+- Status: (\S+)\n\s+- Description: \"(.*?)\"\n\s+- Location: ([^\n]*)$", re.M | re.S)
+    r"^Check (\d+): ([^\n]+)\n\s+- Status: (\S+)\n\s+- Description: \"(.*?)\"\n(?:\s+- Location: ([^\n]*)\n)?(?=\n|\Z|\s*\n)", re.M | re.S)
 
 
 def parse_output(out):
     checks = []
     for m in CHECK_RE.finditer(out):
         checks.append({"n": int(m.group(1)), "name": m.group(2), "status": m.group(3),
-                       "desc": " ".join(m.group(4).strip('"').split()), "loc": m.group(5)})
+                       "desc": " ".join(m.group(4).strip('"').split()), "loc": m.group(5) or ""})
     verdict = None
     m = re.search(r"VERIFICATION:- (\w+)", out)
     if m:
@@ -178,6 +178,11 @@ def classify(h, out, timed_out, wall, log):
         return res
     if not checks or verdict is None:
         res["status"], res["why"] = "undecided", "no verification result (tool failure / out of memory)"
+        return res
+    m = re.search(r"\*\* (\d+) of (\d+) failed", out)
+    if m and (int(m.group(2)) != len([c for c in checks if ".cover." not in c["name"]]) or int(m.group(1)) != len(failed)):
+        res["status"], res["why"] = "undecided", "parser disagreement with Kani's summary (%s of %s failed; parsed %d/%d)" % (
+            m.group(1), m.group(2), len(failed), len(checks))
         return res
     if real_fail:
         res["status"] = "failed"
